@@ -168,7 +168,8 @@ Qed.
 (* ---- payload tables *)
 Lemma finv_store_upd s x :
   finv s ->
-  envs x = envs (st s) -> next_id x = next_id (st s) -> lams x = lams (st s) ->
+  envs x = envs (st s) -> next_id (st s) <= next_id x ->
+  (forall lid l, tget (lams x) lid = Some l -> bc_ok (l_bc l)) ->
   (forall vid l i v, tget (vecs x) vid = Some l -> list_get l i = Some v -> no_lexptr v) ->
   (forall cid k i v, tget (conts x) cid = Some k -> list_get (k_stack k) i = Some v -> no_lexptr v) ->
   finv (with_store s x).
@@ -180,18 +181,17 @@ Proof.
   constructor; cbn [hp st g_slots with_store]; try assumption.
   - apply (lex_inv_mem s); cbn [hp st acc with_store]; try assumption.
     + apply (li_heap s L).
-    + intros e Hge. rewrite He. apply (li_store s L). rewrite <- Hn. exact Hge.
+    + intros e Hge. rewrite He. apply (li_store s L). apply N.le_trans with (next_id x); [exact Hn|exact Hge].
     + intros eid l k w E Hk0. right. rewrite He in E. eauto.
     + apply (stack_clean_same s); [apply (li_stack s L)|reflexivity].
     + apply (li_acc s L).
-  - intros lid l. rewrite Hlam. apply F4.
 Qed.
 
 Lemma finv_vec_set s vid l :
   finv s -> (forall i v, list_get l i = Some v -> no_lexptr v) ->
   finv (with_store s (set_vec (st s) vid l)).
 Proof.
-  intros F Hl. apply finv_store_upd; try reflexivity; [exact F| |apply (fi_conts s F)].
+  intros F Hl. apply finv_store_upd; [exact F|reflexivity|apply N.le_refl|apply (fi_code s F)| |apply (fi_conts s F)].
   intros vid0 l0 i v E. cbn [set_vec vecs] in E. rewrite tget_tset in E.
   destruct (vid =? vid0); [injection E as <-; apply Hl|revert E; apply (fi_vecs s F)].
 Qed.
@@ -1056,3 +1056,206 @@ Theorem locations_flat_reachable ob fuel count s res s' :
     exists e2 l2 v, env_at s' q = Some (e2, l2) /\ list_get l2 k2 = Some v /\
                     match v with VLexPtr _ _ => False | _ => True end.
 Proof. intros Hob F H. exact (finv_flat s' (run_count_finv ob fuel count s res s' Hob F H)). Qed.
+
+(* ------------------------------------------------------------------ the builtins of procedure.rs / ports.rs *)
+(* [builtins_ok] reduced to the table [other_builtin] and to `eval` (which runs the compiler) *)
+Lemma pres_pop_argc mn mx : pres (pop_argc mn mx) T.
+Proof.
+  unfold pop_argc. pbn v Hv. destruct v; try apply pres_fail.
+  destruct ((n <? mn) || match mx with Some m => m <? n | None => false end); [apply pres_fail|pend].
+Qed.
+Lemma pres_fail_msg {A} e msg (Q : A -> Prop) : pres (fail_msg e msg) Q.
+Proof. intros s F _. exact F. Qed.
+Lemma pres_pop_n_cells n : forall acc0, pres (pop_n_cells n acc0) T.
+Proof.
+  induction n as [|n IH]; intros acc0; cbn [pop_n_cells]; [pend|].
+  pb. pb. apply IH.
+Qed.
+Lemma pres_b_error : pres b_error no_lexptr.
+Proof.
+  unfold b_error. eapply pres_bind; [apply pres_pop_argc|intros argc _].
+  eapply pres_bind; [apply pres_pop_n_cells|intros cs _]. apply pres_fail_msg.
+Qed.
+Lemma pres_b_display wr : pres (b_display wr) no_lexptr.
+Proof.
+  unfold b_display. eapply pres_bind; [apply pres_pop_argc|intros argc _]. pb. pb.
+  intros s F _. cbn [post]. split; [|exact I]. apply (finv_regs s); auto.
+Qed.
+Lemma pres_dec_ip : pres dec_ip T.
+Proof.
+  intros s F _. unfold dec_ip. destruct (snd (ip s) =? 0); [exact I|]. cbn [post]. split; [|exact I].
+  apply (finv_regs s); auto.
+Qed.
+Lemma pres_pop_deref : pres pop_deref no_lexptr.
+Proof. unfold pop_deref. pb. pend. Qed.
+
+Lemma pres_b_apply : pres b_apply no_lexptr.
+Proof.
+  unfold b_apply. eapply pres_bind; [apply pres_pop_argc|intros argc _].
+  eapply pres_bind; [apply pres_pop_deref|intros rest Hrest].
+  assert (G : forall (shift : nat -> M unit) (spread : nat -> vcell -> N -> M N),
+            (forall k, pres (shift k) T) -> (forall f r n, no_lexptr r -> pres (spread f r n) T) ->
+            pres (dom proc <- stack_get_offset (- (Z.of_N argc - 2))%Z;
+                  dom _ <- shift (N.to_nat (argc - 2));
+                  dom _ <- pop_raw;
+                  dom s <- get_vm;
+                  dom n <- spread (cell_fuel s) rest (argc - 2);
+                  dom _ <- push (VArgc n);
+                  dom _ <- dec_ip;
+                  ret proc) no_lexptr).
+  { intros shift spread Hshift Hspread. pbn proc Hproc.
+    eapply pres_bind; [apply Hshift|intros ? ?]. pb. pbn s Fs.
+    eapply pres_bind; [apply Hspread; exact Hrest|intros n _]. pb.
+    eapply pres_bind; [apply pres_dec_ip|intros ? ?]. apply pres_ret. exact Hproc. }
+  assert (Hshift : forall k, pres ((fix shift (k : nat) : M unit :=
+                     match k with
+                     | O => ret tt
+                     | S k' => let it := Z.of_nat k' in
+                               dom v <- stack_get_offset (- it)%Z;
+                               dom _ <- stack_put_offset (- it - 1)%Z v;
+                               shift k'
+                     end) k) T).
+  { induction k as [|k IH]; [pend|]. cbv zeta. pb. pb. apply IH. }
+  assert (Hspread : forall f r n, no_lexptr r ->
+            pres ((fix spread (fuel : nat) (r : vcell) (n : N) : M N :=
+                     match fuel with
+                     | O => fun _ => RNoFuel
+                     | S f =>
+                         match r with
+                         | VPair a d => dom _ <- push (VPtr a); dom r' <- hget d; spread f r' (n + 1)
+                         | VNil => ret n
+                         | _ => fail E_OTHER
+                         end
+                     end) f r n) T).
+  { induction f as [|f IH]; intros r n Hr; [intros s F _; exact I|].
+    destruct r; try apply pres_fail; [pend|]. pb. pbn r' Hr'. apply IH. exact Hr'. }
+  destruct rest; try apply pres_fail; exact (G _ _ Hshift Hspread).
+Qed.
+
+Lemma stack_to_sp_clean s i v : finv s -> list_get (stack_to_sp s) i = Some v -> no_lexptr v.
+Proof.
+  intros F H. unfold list_get, stack_to_sp in H. apply nth_error_In in H. apply in_map_iff in H as (j & <- & _).
+  apply (finv_stack_clean s F).
+Qed.
+Lemma pres_to_continuation : pres to_continuation no_lexptr.
+Proof.
+  intros s F _. unfold to_continuation. cbn [new_cont post]. split; [|exact I].
+  apply finv_store_upd; [exact F|reflexivity|cbn [next_id]; lia|apply (fi_code s F)|apply (fi_vecs s F)|].
+  intros cid k i v E. cbn [conts] in E. rewrite tget_tset in E. destruct (next_id (st s) =? cid).
+  - injection E as <-. cbn [k_stack]. apply stack_to_sp_clean, F.
+  - revert E. apply (fi_conts s F).
+Qed.
+Lemma pres_b_call_cc : pres b_call_cc no_lexptr.
+Proof.
+  unfold b_call_cc. eapply pres_bind; [apply pres_pop_argc|intros argc _].
+  pbn proc Hproc. pbn pv Hpv. destruct (negb (is_procedure pv)); [apply pres_fail|].
+  eapply pres_bind; [apply pres_to_continuation|intros k Hk]. pb. pb. pb.
+  eapply pres_bind; [apply pres_dec_ip|intros ? ?]. apply pres_ret. exact Hproc.
+Qed.
+
+Theorem builtins_ok_of ob :
+  (forall b, pres (ob b) no_lexptr) -> pres b_eval no_lexptr -> builtins_ok ob.
+Proof.
+  intros Hob Heval b. unfold run_builtin.
+  repeat match goal with
+         | |- pres (if ?c then _ else _) _ => destruct c
+         end;
+    first [apply pres_b_apply|apply pres_b_call_cc|apply pres_b_error|exact Heval|apply pres_b_display|apply Hob].
+Qed.
+
+(* whole evaluations: Vm::eval = prepare_eval (the compiler) then the run loop *)
+Lemma eval_shape (r : res unit) (k : vm -> res run_result) res s' :
+  match r with
+  | ROk _ s1 => k s1
+  | RErr e m s1 => ROk (Failed e m None) s1
+  | RPanic k0 => RPanic k0
+  | RNoFuel => RNoFuel
+  end = ROk res s' ->
+  (exists u s1, r = ROk u s1 /\ k s1 = ROk res s') \/ (exists e m, r = RErr e m s').
+Proof.
+  destruct r as [u s1|e m s1|k0|]; intros H; try discriminate H.
+  - left. eauto.
+  - right. injection H as _ <-. eauto.
+Qed.
+Lemma eval_unfold ob fuel e s :
+  eval ob fuel e s =
+  match prepare_eval e s with
+  | ROk _ s1 => run_count ob fuel None s1
+  | RErr e m s1 => ROk (Failed e m None) s1
+  | RPanic k0 => RPanic k0
+  | RNoFuel => RNoFuel
+  end.
+Proof. reflexivity. Qed.
+Theorem eval_finv ob fuel e s res s' :
+  builtins_ok ob -> pres (prepare_eval e) T -> finv s -> eval ob fuel e s = ROk res s' -> finv s'.
+Proof.
+  intros Hob Hprep F H. rewrite eval_unfold in H. pose proof (Hprep s F I) as P.
+  apply eval_shape in H as [(u & s1 & E & H)|(er & m & E)]; rewrite E in P.
+  - exact (run_count_finv ob fuel None s1 res s' Hob (proj1 P) H).
+  - exact P.
+Qed.
+
+(* ------------------------------------------------------------------ a decidable check of bc_ok *)
+Definition no_lexptrb (v : vcell) : bool := match v with VLexPtr _ _ => false | _ => true end.
+Fixpoint check_mov (bc : list vcell) : bool :=
+  match bc with
+  | [] => true
+  | VOp o :: r =>
+      (if is_mov o then match r with _ :: VPtr _ :: _ => false | _ => true end else true) && check_mov r
+  | _ :: r => check_mov r
+  end.
+Definition bc_okb (bc : list vcell) : bool := forallb no_lexptrb bc && check_mov bc.
+
+Lemma check_mov_sound bc : check_mov bc = true ->
+  forall n o p, nth_error bc n = Some (VOp o) -> is_mov o = true -> nth_error bc (S (S n)) <> Some (VPtr p).
+Proof.
+  induction bc as [|x r IH]; intros H n o p Hn Hm; [destruct n; discriminate|].
+  destruct n as [|n].
+  - cbn in Hn. injection Hn as ->. cbn [check_mov] in H. rewrite Hm in H.
+    apply andb_prop in H as [H _]. cbn [nth_error].
+    destruct r as [|y [|z r']]; cbn [nth_error]; try discriminate. destruct z; first [discriminate H|discriminate].
+  - cbn [nth_error] in Hn. assert (Hr : check_mov r = true).
+    { cbn [check_mov] in H. destruct x; try exact H. apply andb_prop in H as [_ H]. exact H. }
+    exact (IH Hr n o p Hn Hm).
+Qed.
+Lemma bc_okb_sound bc : bc_okb bc = true -> bc_ok bc.
+Proof.
+  intros H. apply andb_prop in H as [H1 H2]. split.
+  - intros i v Hi. unfold list_get in Hi. apply nth_error_In in Hi.
+    rewrite forallb_forall in H1. specialize (H1 v Hi). destruct v; try exact I. discriminate.
+  - intros i o p Hi Hm. unfold list_get in *. replace (N.to_nat (i + 2)) with (S (S (N.to_nat i))) by lia.
+    apply (check_mov_sound bc H2 _ o p Hi). destruct Hm as [-> | ->]; reflexivity.
+Qed.
+
+(* installing a code object whose bytecode passes the check *)
+Lemma finv_new_lam s l : finv s -> bc_ok (l_bc l) -> finv (with_store s (snd (new_lam (st s) l))).
+Proof.
+  intros F Hl. apply finv_store_upd; [exact F|reflexivity|cbn [new_lam snd next_id]; lia| |
+    apply (fi_vecs s F)|apply (fi_conts s F)].
+  intros lid l0 E. cbn [new_lam snd lams] in E. rewrite tget_tset in E.
+  destruct (next_id (st s) =? lid); [injection E as <-; exact Hl|revert E; apply (fi_code s F)].
+Qed.
+
+(* ------------------------------------------------------------------ example machine *)
+(* (cons #t '()) by hand: MOV-immediate #t %acc; PUSH %acc; PUSH-immediate (); CONS; HALT *)
+Definition fx_code : list vcell :=
+  [VOp OMovImmediate; VBool true; VAcc; VOp OPushAcc; VOp OPushImmediate; VNil; VOp OCons; VOp OHalt].
+Definition fx_lambda : lambda := mk_lambda true false [] [] fx_code None.
+Definition fx_vm : vm :=
+  let s0 := vm_empty 8 in
+  let s1 := with_store s0 (snd (new_lam (st s0) fx_lambda)) in
+  let '(p, h) := heap_put (hp s1) (VLambda 0) in
+  with_ip (with_heap s1 h) (0, 0).
+Definition fx_ob : N -> M vcell := fun _ => fail E_OTHER.
+
+Lemma fx_finv : finv fx_vm.
+Proof.
+  assert (F0 : finv (vm_empty 8)) by (apply finv_empty; reflexivity).
+  assert (F1 : finv (with_store (vm_empty 8) (snd (new_lam (st (vm_empty 8)) fx_lambda)))).
+  { apply finv_new_lam; [exact F0|]. apply bc_okb_sound. reflexivity. }
+  unfold fx_vm. cbv zeta.
+  destruct (heap_put (hp (with_store (vm_empty 8) (snd (new_lam (st (vm_empty 8)) fx_lambda)))) (VLambda 0))
+    as [p h] eqn:E.
+  destruct (finv_heap_put _ (VLambda 0) p h F1 I E) as [F2 _].
+  refine (finv_regs _ _ _ _ _ _ _ F2); reflexivity.
+Qed.
